@@ -28,6 +28,12 @@ func (w *recWriter) Write(p []byte) (int, error) {
 	return w.buf.Write(p)
 }
 
+// recStringWriter is a recWriter that also offers WriteString (like *bytes.Buffer, *bufio.Writer,
+// strings.Builder, http response writers): an implementation may be tempted to treat it specially.
+type recStringWriter struct{ recWriter }
+
+func (w *recStringWriter) WriteString(s string) (int, error) { return w.Write([]byte(s)) }
+
 func errClass(err error) string {
 	if err == nil {
 		return ""
@@ -39,7 +45,7 @@ func errClass(err error) string {
 }
 
 func suiteC14(cfg Config, res *Result) {
-	res.Rule = "grammar-generated programs in which the k-th output position is a fault point {{ 1/zz }} (zz = 0: execution error there; zz = 1: fault-free), for every k, plus the same programs without fault; each executed through Execute, ExecuteBytes, ExecuteWriter and ExecuteWriterUnbuffered with a recording writer, and through ExecuteWriter / ExecuteWriterUnbuffered with a writer that starts failing after 0..3 calls (programs include sub-templates); oracle: the four variants produce the same bytes and fail in the same cases; on failure ExecuteWriter wrote nothing and the unbuffered variant a prefix of the fault-free output; a failing caller's writer makes the call return an error — never a panic — having written a prefix; non-trivial = program with a fault point behind >= 1 output; distinct by (program, fault position)"
+	res.Rule = "grammar-generated programs in which the k-th output position is a fault point {{ 1/zz }} (zz = 0: execution error there; zz = 1: fault-free), for every k, plus the same programs without fault; each executed through Execute, ExecuteBytes, ExecuteWriter (to a plain io.Writer, to one that also has WriteString, to a *bytes.Buffer) and ExecuteWriterUnbuffered with a recording writer, and through ExecuteWriter / ExecuteWriterUnbuffered with a writer that starts failing after 0..3 calls (programs include sub-templates); oracle: the four variants produce the same bytes and fail in the same cases; on failure ExecuteWriter wrote nothing and the unbuffered variant a prefix of the fault-free output; a failing caller's writer makes the call return an error — never a panic — having written a prefix; non-trivial = program with a fault point behind >= 1 output; distinct by (program, fault position)"
 	n := 1500
 	if cfg.Thorough() {
 		n = 30000
@@ -131,6 +137,36 @@ func suiteC14(cfg Config, res *Result) {
 			continue
 		}
 		check("zz=0", s0, eS0, b0, eB0, w0, eW0, u0, eU0)
+		// the same through writers that also have WriteString
+		for _, zz := range []int{0, 1} {
+			sw := &recStringWriter{recWriter{budget: -1}}
+			var bb bytes.Buffer
+			var e1, e2 error
+			pan := ""
+			func() {
+				defer func() {
+					if p := recover(); p != nil {
+						pan = fmt.Sprint(p)
+					}
+				}()
+				e1 = tpl.ExecuteWriter(mk(zz), sw)
+				e2 = tpl.ExecuteWriter(mk(zz), &bb)
+			}()
+			wantS, wantE := s1, eS1
+			if zz == 0 {
+				wantS, wantE = s0, eS0
+			}
+			switch {
+			case pan != "":
+				bad("c14-panic", "ExecuteWriter(StringWriter): panic: "+pan, "output or an error")
+			case errClass(e1) != errClass(wantE) || errClass(e2) != errClass(wantE):
+				bad("c14-variants-fail-differently", fmt.Sprintf("zz=%d: ExecuteWriter to a StringWriter / *bytes.Buffer: %q / %q, Execute: %q", zz, errClass(e1), errClass(e2), errClass(wantE)), "the same outcome whatever the writer's type")
+			case wantE != nil && (sw.buf.Len() != 0 || bb.Len() != 0):
+				bad("c14-writer-not-all-or-nothing", fmt.Sprintf("zz=%d: ExecuteWriter wrote %q / %q before failing", zz, sw.buf.String(), bb.String()), "nothing written on failure")
+			case wantE == nil && (sw.buf.String() != wantS || bb.String() != wantS):
+				bad("c14-variants-differ", fmt.Sprintf("zz=%d: StringWriter=%q Buffer=%q Execute=%q", zz, sw.buf.String(), bb.String(), wantS), "the same bytes whatever the writer's type")
+			}
+		}
 		if eS0 != nil && eS1 == nil {
 			res.hist("fault-hit")
 			if !strings.HasPrefix(s1, u0.buf.String()) {
